@@ -193,6 +193,17 @@ func c13VersionAnswersNameFreshSessions(w *World, r *Report) {
 	sl := w.Named("internal/streams/dns", "ServerDnsListener")
 	uc := w.Named("internal/streams/dns", "userConnection")
 	connF := fieldOf(sl, "connections")
+	if connF == nil && sl != nil && uc != nil {
+		// by role: the first table of sessions (the live one; the retired table follows it)
+		connF = fieldByType(sl, func(t types.Type) bool {
+			slc, ok := t.(*types.Slice)
+			if !ok {
+				return false
+			}
+			pt, ok := slc.Elem().(*types.Pointer)
+			return ok && types.Identical(pt.Elem(), uc)
+		})
+	}
 	if uidF == nil || uc == nil || connF == nil {
 		r.Undecided(rule, "anchor", "-", "anchor unresolved: VersionResponse.UserId / userConnection / ServerDnsListener.connections")
 		return
